@@ -35,6 +35,12 @@ for nr, tiers in ((1, ('quick', 'thorough')), (2, ('thorough',))):
        unwind=4, cbmc_flags=('--no-unwinding-assertions',), min_covers=3 if nr == 2 else 2, checks=('--bounds-check', '--signed-overflow-check', '--div-by-zero-check'), timeout=900,
        functions=('wait_for_readers', 'urcu_qsbr_reader_state', 'cds_list_move'),
        desc='qsbr wait_for_readers with arbitrary reader counters at every load: never retires a reader on an OLD observation; nothing lost/duplicated; sleeps only after arm -> wmb -> waiting set on every awaited reader -> full barrier -> re-scan with one OLD; futex reset with release; lock discipline'))
+for nr, tiers in ((1, ('quick', 'thorough')), (2, ('thorough',))):
+    OBLIGATIONS.append(Ob(name='C01.O4.bp.scan%d' % nr, harness='C01/scan_bp.c', entry='h_scan', defines=('_LGPL_SOURCE', 'NRMAX=%d' % nr), tiers=tiers,
+       rules=('qs_attempts_small_bp',), tier='B', bound='<= %d reader(s), <= 3 passes,' % nr + ' RCU_QS_ACTIVE_ATTEMPTS reduced from 100 to 2 (scratch rewrite)',
+       unwind=4, cbmc_flags=('--no-unwinding-assertions',), min_covers=3 if nr == 2 else 2, checks=('--bounds-check', '--signed-overflow-check', '--div-by-zero-check'), timeout=900,
+       functions=('wait_for_readers', 'urcu_bp_reader_state', 'cds_list_move'),
+       desc='bp wait_for_readers with arbitrary reader words at every load: never retires a reader on an OLD observation; nothing lost/duplicated; never waits holding the registry lock'))
 OBLIGATIONS.append(Ob(name='C01.O5.bp.sync_skeleton', harness='C01/sync_bp_qsbr.c', entry='h_sync', defines=('FLAVOR_BP', '_LGPL_SOURCE'), mode='legacy',
    replace=('smp_mb_master', 'wait_for_readers'), unwind=1, min_covers=2, checks=CK2, functions=('urcu_bp_synchronize_rcu',),
    desc='bp: synchronize_rcu skeleton: all signals blocked first and restored last; lock gp, lock registry, mb_master, scan, exactly one PHASE toggle, scan, splice, mb_master, unlocks in reverse order; registry set unchanged'))
